@@ -41,6 +41,9 @@ pub fn resolve_align(
 
     let align = defs.align_directives.get_mut(item_ref);
     let prev_value = align.align_size.clone();
+
+    #[cfg(hlorenzi_customasm_verif)]
+    crate::verif::note("prev", crate::verif::V::I(prev_value as i128));
     align.align_size = value;
 
 
